@@ -81,6 +81,9 @@ def pg_styles(seq, V, St, w):
     else:
         seq.phase_shift(V(6, 1.0), Q(0), Q(2), basis="digital")
     seq.add(Pulse.ConstantPulse(52, 1.0, 0.0, V(7, 0.0)), "g")
+    if St(15):
+        seq.delay(0, "g", at_rest=True)  # zero-length delay that still waits for the fall time
+        seq.add(Pulse.ConstantPulse(52, 1.0, 0.0, 0.0), "g", "no-delay")
     if St(13):
         seq.measure()
     elif St(14):
@@ -102,6 +105,8 @@ def pg_eom(seq, V, St, w):
     else:
         seq.add_eom_pulse("g", V(3, 100, True), V(4, 0.3), V(5, 0.1), "wait-for-all", False)
     seq.delay(48, "g")
+    if St(8):
+        seq.delay(0, "g", at_rest=True)
     if St(4):
         seq.modify_eom_setpoint("g", V(6, 1.0), 0.0)
     else:
@@ -187,7 +192,7 @@ def pg_arbphase(seq, V, St, w):
         seq.add(Pulse.ConstantDetuning(KaiserWaveform(V(4, 120, True), V(5, 0.6), beta=V(6, 5.0)), 0.0, 0.0), "g")
 
 
-PROGRAMS = {"styles": (pg_styles, 15), "eom": (pg_eom, 8), "dmm_slm": (pg_dmm_slm, 7), "xy": (pg_xy, 5), "arbphase": (pg_arbphase, 7)}
+PROGRAMS = {"styles": (pg_styles, 16), "eom": (pg_eom, 9), "dmm_slm": (pg_dmm_slm, 7), "xy": (pg_xy, 5), "arbphase": (pg_arbphase, 7)}
 
 REGS = ["2d", "2d-layout", "3d", "3d-layout", "mappable", "mappable-3d"]  # {2D, 3D} x {plain, from a layout, mappable}
 DEVS = ["virtual", "MockDevice", "custom-physical"]
